@@ -93,6 +93,10 @@ def inputs(tier):
         names = ["Repo", "Issue", "Gist", "Commit", "Pull"][:k]
         out.append((f"shared_by_{k}_roots", {"__roots__": {n: [{"owner": dict(owner), f"{n.lower()}_id": 1, "title": "t" * (i + 1), f"f{i}": i, f"g{i}": [i]}]
                                                           for i, n in enumerate(names)}}, None))
+    # root models whose given names differ only by case and whose fields are similar enough to merge (the merged name is built from both)
+    out.append(("case_clash_roots", {"__roots__": {"item": [{"a": 1, "b": 2, "c": 3}], "Item": [{"a": 1, "b": 2, "c": 3, "d": 4}]}}, None))
+    out.append(("case_clash_roots3", {"__roots__": {"user": [{"a": 1, "b": 2, "c": 3}], "User": [{"a": 1, "b": 2, "c": 3, "d": 4}],
+                                                     "USER": [{"a": 1, "b": 2, "c": 3, "e": 4}], "admin_user": [{"a": 1, "b": 2, "c": 3, "d": 4, "e": 5}]}}, None))
     out.append(("names", [{"author": {"n": 1, "x": 2}, "editor": {"n": 2, "x": 3}, "owner_user": {"n": 3, "x": 1}, "users": [{"n": 1, "x": 9}]}], None))
     return out
 
@@ -184,7 +188,7 @@ def one(key, fw, layout, merge, tier):
 
 
 # ---- CLI seam ----------------------------------------------------------------------------------
-CLI_INPUTS = ["wide4", "wide3_list", "lit6", "missing_together", "names", "imports", "<glob>"]
+CLI_INPUTS = ["wide4", "wide3_list", "lit6", "missing_together", "names", "imports", "<glob>", "<yaml_set>", "<case_clash>"]
 
 
 GLOB_FILES = [{"id": 1, "a": "x"}, [{"id": 2, "b": [1]}, {"id": 3, "c": {"d": 1}}], {"id": "4", "e": None, "a": 5}, {"zz": 1.5, "b": ["s"]}]
@@ -200,6 +204,16 @@ def _cli_case(args):
                 with open(os.path.join(d, f"part_{'abcd'[i]}{i}.json"), "w") as f:
                     json.dump(content, f)
             argv = ["-m", "Root", "part_*.json", "-f", fw] + (["-o", "out.py"] if out_mode == "file" else [])
+        elif key == "<yaml_set>":
+            # YAML-only collection types (a set mixes string and non-string members): rejected or accepted, but the same in every process
+            with open(os.path.join(d, "in.yaml"), "w") as f:
+                f.write("- name: x\n  flags: !!set {debug, verbose, true, 5}\n- name: y\n  flags: !!set {quiet}\n")
+            argv = ["-i", "yaml", "-m", "Root", "in.yaml", "-f", fw] + (["-o", "out.py"] if out_mode == "file" else [])
+        elif key == "<case_clash>":
+            for nm, content in (("a.json", {"a": 1, "b": 2, "c": 3}), ("b.json", {"a": 1, "b": 2, "c": 3, "d": 4})):
+                with open(os.path.join(d, nm), "w") as f:
+                    json.dump(content, f)
+            argv = ["-m", "item", "a.json", "-m", "Item", "b.json", "-f", fw] + (["-o", "out.py"] if out_mode == "file" else [])
         else:
             samples = next(s for k, s, _ in inputs(tier) if k == key)
             with open(os.path.join(d, "in.json"), "w") as f:
